@@ -447,9 +447,18 @@ pub fn hazard_program_ex(rng: &mut Rng, o: HazardOpts) -> (Vec<u8>, bool) {
     // kinds of the values on the stack (true = flag register), so that POPF only pops flags
     let mut kinds: Vec<bool> = vec![];
     let body_limit = if o.irq.is_some() { 0x58 } else { 0x80 };
+    let ei_at_vector = o.irq.map(|i| i.isr_ei_first).unwrap_or(false);
     if o.irq.is_some() {
-        p.byte(0x20).byte(0x02); // JR MAIN (to address 4)
-        p.byte(0x20).byte(0x00); // JR ISR, patched below
+        if ei_at_vector {
+            // the interrupt vector itself holds EI (which does not sample): a press latched during
+            // the entry sequence is then taken at the end of the JR that follows
+            p.byte(0x20).byte(0x03); // JR MAIN (to address 5)
+            p.ei();
+            p.byte(0x20).byte(0x00); // JR ISR, patched below
+        } else {
+            p.byte(0x20).byte(0x02); // JR MAIN (to address 4)
+            p.byte(0x20).byte(0x00); // JR ISR, patched below
+        }
     }
     p.ldsp(Src::Imm(0xEF));
     if let Some(i) = o.irq {
@@ -740,13 +749,12 @@ pub fn hazard_program_ex(rng: &mut Rng, o: HazardOpts) -> (Vec<u8>, bool) {
     if let Some(i) = o.irq {
         // interrupt service routine: counts in IRQ_COUNTER, preserves what it uses
         let isr = p.here();
-        p.b[3] = isr.wrapping_sub(4);
-        if i.isr_ei_first {
-            // EI ; NOP ; DI - the NOP is where a press latched during the entry is taken (EI and DI
-            // do not sample); the counter update below stays atomic
-            p.ei();
-            p.nop();
+        if ei_at_vector {
+            p.b[4] = isr.wrapping_sub(5);
+            // (interrupts are on since the EI at the vector: off again before the counter update)
             p.di();
+        } else {
+            p.b[3] = isr.wrapping_sub(4);
         }
         p.push(0);
         if i.isr_work {
